@@ -41,7 +41,7 @@ Counts ==
            ix2 \in {<< >>, << 0 >>, << Half >>, << MaxU >>}, nm \in 0 .. 2 :
           inp' = CountCase("BlindProofVerify", [U |-> U, L |-> L, ix1 |-> ix1, ix2 |-> ix2, nmsgs |-> nm],
                            BlindProofVerifyCounts(U, L, ix1, ix2, nm))
-     \/ \E idx \in {0, 1, 2, 3, Half, MaxU - 1, MaxU}, n \in {0, 1, 3, 4, 1000, MaxU} :
+     \/ \E idx \in {0, 1, 2, 3, Half, MaxU - 1, MaxU}, n \in {0, 1, 3, 4, 1000, Big, Half, MaxU - 1, MaxU} :
           inp' = CountCase("Update", [idx |-> idx, n |-> n], UpdateCounts(idx, n))
      \/ \E L \in {0, 1, 3}, ix \in Ix(3) :
           inp' = CountCase("ProofGen", [L |-> L, ix |-> ix], ProofGenCounts(L, ix))
